@@ -93,6 +93,15 @@ Definition arr_remove_first (a : arr) : outcome (arr * Z) := arr_remove_at a 0.
 Definition arr_remove_last (a : arr) : outcome (arr * Z) :=
   if Nat.eqb (a_cnt a) 0 then Err ARES_EFORMERR else arr_remove_at a (a_cnt a - 1).
 
+(* ares_array_finish: the members are moved to the start of the allocation and the block is
+   handed to the caller together with the member count (None = NULL on a failed move) *)
+Definition arr_finish (a : arr) : outcome (list Z) :=
+  do a1 <- (if negb (Nat.eqb (a_off a) 0)
+            then do m <- arr_move a 0 (a_off a); Ok (mkArr (a_cells m) (a_cnt m) 0)
+            else Ok a);
+  if Nat.ltb (alloc_cnt a1) (a_cnt a1) then UB OutOfBounds
+  else Ok (firstn (a_cnt a1) (a_cells a1)).
+
 (* abstraction: the member sequence *)
 Definition arr_abs (a : arr) : list Z := firstn (a_cnt a) (skipn (a_off a) (a_cells a)).
 
@@ -116,7 +125,8 @@ Definition arr_last (a : arr) : option Z :=
 Inductive arr_op :=
 | AInsAt (idx : nat) (v : Z) | AInsFirst (v : Z) | AInsLast (v : Z)
 | ARemAt (idx : nat) | ARemFirst | ARemLast
-| AAt (idx : nat) | AFirst | ALast | ALen.
+| AAt (idx : nat) | AFirst | ALast | ALen
+| ASetSize (n : nat).
 
 Inductive arr_res :=
 | RStatus (s : Z)          (* status of an insert, or of a failed removal *)
@@ -151,6 +161,7 @@ Definition arr_step (alloc_ok : bool) (a : arr) (o : arr_op) : arr * arr_res :=
   | AFirst => (a, RVal (arr_first a))
   | ALast => (a, RVal (arr_last a))
   | ALen => (a, RLen (arr_len a))
+  | ASetSize n => arr_res_ins a (arr_set_size alloc_ok a n)
   end.
 
 Fixpoint arr_run (a : arr) (ops : list (bool * arr_op)) : arr * list arr_res :=
@@ -190,6 +201,8 @@ Definition aspec_step (l : list Z) (o : arr_op) : list Z * arr_res :=
   | AFirst => (l, RVal (hd_error l))
   | ALast => (l, RVal (match l with [] => None | _ => Some (last l 0%Z) end))
   | ALen => (l, RLen (length l))
+  | ASetSize n =>
+    (l, RStatus (if Nat.eqb n 0 || Nat.ltb n (length l) then ARES_EFORMERR else ARES_SUCCESS))
   end.
 
 Fixpoint aspec_run (l : list Z) (ops : list arr_op) : list Z * list arr_res :=
@@ -203,8 +216,9 @@ Fixpoint aspec_run (l : list Z) (ops : list arr_op) : list Z * list arr_res :=
 (* A run in which the allocator may refuse: each step either is the reference step, or -
    only if the allocator said no ([ok = false]) and the reference would have accepted the
    insert - reports ARES_ENOMEM and leaves the sequence unchanged. *)
+(* calls that may ask the allocator *)
 Definition arr_op_is_insert (o : arr_op) : bool :=
-  match o with AInsAt _ _ | AInsFirst _ | AInsLast _ => true | _ => false end.
+  match o with AInsAt _ _ | AInsFirst _ | AInsLast _ | ASetSize _ => true | _ => false end.
 
 Fixpoint aspec_trace (l : list Z) (ops : list (bool * arr_op)) (rs : list arr_res) (lfinal : list Z) : Prop :=
   match ops, rs with
